@@ -92,6 +92,9 @@ def direct(ctx, entries, count=False):
         try:
             for regime in (('fresh',) if e.extra.get('big') else ('fresh', 'normal')):
                 t32 = tcorr.build(e, gen, torch.float32, regime)
+                if not e.extra.get('train'):
+                    # the twin is made from a model that has already been evaluated (a per-instance memo must not survive the conversion)
+                    R.impl_call(t32, R.make_inputs(e, 2, gen, torch.float32, False), R.make_context(e, 2, gen, torch.float32), False)
                 t64 = copy.deepcopy(t32).double()
                 for inverse in (False, True):
                     if inverse and (e.name.startswith('Squeeze') or 'UMNN' in e.name or e.extra.get('train')):
@@ -125,10 +128,37 @@ def direct(ctx, entries, count=False):
                     kap = torch.exp((l64.abs() / max(1, x32[0].numel())).clamp(max=20)) if e.kind == 'extra' else torch.exp(l64.abs().clamp(max=20))
                     cub = 0.25 if e.spline.get('fam') == 'cubic' else 0.0   # Hermite coefficients (d0+d1-2s)/w^2 cancel badly in float32
                     tol_l = 256 * U32 * (1 + l64.abs()) * kap * max(1, x32[0].numel()) + cub
-                    if ((l32.double() - l64).abs() > tol_l + oracles._declared(e)).any():
-                        ctx.fail('float32 log-abs-det off by %.3g' % (l32.double() - l64).abs().max().item(), case, match=M('ld-accuracy')); continue
                     kk = kap.reshape(-1, *([1] * (y64.dim() - 1)))
-                    if ((y32.double() - y64).abs() > 256 * U32 * (1 + y64.abs()) * kk + oracles._declared(e) + cub / 10).any():
+                    bad_l = bool(((l32.double() - l64).abs() > tol_l + oracles._declared(e)).any())
+                    bad_y = bool(((y32.double() - y64).abs() > 256 * U32 * (1 + y64.abs()) * kk + oracles._declared(e) + cub / 10).any())
+                    if (bad_l or bad_y) and inverse and not e.extra.get('train'):
+                        # an ill-conditioned inverse (a flat bin, hidden in a row whose log-dets cancel): single-precision accuracy in the
+                        # BACKWARD sense — the float64 forward map at the float32 answer returns the input and the negated log-det
+                        kb, yb, lb = R.impl_call(t64, y32.double(), c32.double() if c32 is not None else None, False)
+                        if kb == 'ok' and bool(((yb - x32.double()).abs() <= 256 * U32 * (1 + x32.double().abs()) + oracles._declared(e) + cub / 10).all()) \
+                                and bool(((lb + l32.double()).abs() <= 256 * U32 * (1 + lb.abs()) * max(1, x32[0].numel()) + oracles._declared(e) + cub).all()):
+                            bad_l = bad_y = False
+                            if count:
+                                ctx.count('direct-f32-vs-f64/backward-error')
+                    if bad_l and not e.extra.get('train'):
+                        # conditioning of the LOG-DET as a function of the input: a float32 evaluation is the exact one at an input moved by
+                        # a few float32 ulps, so its log-det may differ by (local Lipschitz constant of ld) x (that move); the constant is
+                        # estimated from the float64 twin on both sides of the input (where the moved input is still in the domain)
+                        eta = 1e-3
+                        xd = x32.double(); cd = c32.double() if c32 is not None else None
+                        lip = torch.zeros_like(l64)
+                        for sgn in (-1.0, 1.0):
+                            kq, yq, lq = R.impl_call(t64, xd * (1 + sgn * eta), cd, inverse)
+                            if kq == 'ok' and torch.isfinite(lq).all():
+                                lip = torch.maximum(lip, (lq - l64).abs() / (eta * (1 + xd.reshape(xd.shape[0], -1).abs().max(1).values)))
+                        move = 256 * U32 * (1 + xd.reshape(xd.shape[0], -1).abs().max(1).values) * max(1, x32[0].numel())
+                        if not ((l32.double() - l64).abs() > tol_l + oracles._declared(e) + lip * move).any():
+                            bad_l = False
+                            if count:
+                                ctx.count('direct-f32-vs-f64/ld-lipschitz')
+                    if bad_l:
+                        ctx.fail('float32 log-abs-det off by %.3g' % (l32.double() - l64).abs().max().item(), case, match=M('ld-accuracy')); continue
+                    if bad_y:
                         ctx.fail('float32 output off by %.3g' % (y32.double() - y64).abs().max().item(), case, match=M('accuracy'))
         except Exception as ex:
             ctx.notes.append('C19 oracle on %s raised %r' % (e.name, ex))
